@@ -1,0 +1,9 @@
+//go:build verif
+
+package utils
+
+// Frame-only ASSUMED contracts of value helpers used by verified callers.
+//@ func (*CValueEnclosure).ConvertValue
+//@   assumed
+//@   modifies e.Dtype, e.CVal
+//@ end
